@@ -11,7 +11,27 @@ func VerifMapIterReset() { maps.VerifReset() }
 
 // VerifSetMapIter: the k-th (0-based) map iteration since reset starts at entry offset e and
 // directory offset d; every other iteration starts at offset 0. slot ∈ {0,1}.
-func VerifSetMapIter(slot int, k int64, e, d uint64) { maps.VerifSet(slot, k, e, d) }
+func VerifSetMapIter(slot int, k int64, e, d uint64) {
+	maps.VerifSetHook(verifCaptureSite)
+	maps.VerifSet(slot, k, e, d)
+}
+
+var (
+	verifSitePCs [24]uintptr
+	verifSiteN   int
+)
+
+// verifCaptureSite runs inside Iter.Init of a deviating iteration (ordinary goroutine context).
+func verifCaptureSite() { verifSiteN = Callers(1, verifSitePCs[:]) }
+
+// VerifMapIterSite returns the call stack of the last deviating map iteration (for CallersFrames)
+// and forgets it.
+func VerifMapIterSite() []uintptr {
+	out := make([]uintptr, verifSiteN)
+	copy(out, verifSitePCs[:verifSiteN])
+	verifSiteN = 0
+	return out
+}
 
 // VerifMapIterPassthrough(true): random offsets as in the unpatched runtime.
 func VerifMapIterPassthrough(on bool) { maps.VerifPassthrough(on) }
